@@ -63,6 +63,11 @@ def program_edits(rng, src):
                 "fn ra_q(x: u8) -> u8 { rb_q(x) }\nfn rb_q(x: u8) -> u8 { ra_q(x) }\n" +
                 re.sub(r"(pub fn main\([^)]*\) -> [^{]+\{)", r"\1 let rr_q: u8 = ra_q(1u8);", src, 1)))
     out.append(("unused private function", "fn unused_q(x: u8) -> u8 { x }\n" + src))
+    out.append(("variant declared twice in enum definition", "enum Dup_q { A, A(u8) }\n" + src))
+    out.append(("variant declared twice in enum definition (payloads differ)", "enum Dup_q { B(u8), B(u16), C }\n" + src))
+    out.append(("const of a struct type", "struct Sq_q { a: u8 }\nconst CQ_Q: Sq_q = PARTY_0::CQ_Q;\n" + src))
+    out.append(("const of an undeclared type", "const CQ_Q: Nope_q = PARTY_0::CQ_Q;\n" + src))
+    out.append(("one external constant at two types", "const CA_Q: u8 = PARTY_0::XQ;\nconst CB_Q: u16 = PARTY_0::XQ;\n" + src))
     out.append(("public function without parameters", src + "\npub fn nopar_q() -> u8 { 1u8 }"))
     m = re.search(r"pub fn main\(([^)]*)\)", src)
     if m and "," in m.group(1):
